@@ -30,21 +30,22 @@ CONSTANTS MaxInstr,    \* number of generated instructions
 \* ---- slot fillers: type -> class -> values ----------------------------------------------
 Fill(type, class) ==
   CASE type = "int" /\ class = "ok"      -> {"0", "1+2", "2**10", "7//2", "'( 3 )*2'", "0x10"}
-    [] type = "int" /\ class = "notint"  -> {"1.5", "1/2", "'a'", "None", "[1]"}
+    [] type = "int" /\ class = "notint"  -> {"1.5", "1/2", "'a'", "None", "[1]", "{1}"}
     [] type = "int" /\ class = "uneval"  -> {"1//0", "1/0", "5%0", "2.0**10000"}
-    [] type = "int" /\ class = "syntax"  -> {"1+", "(2", "2**", "1_", "0b2"}
+    \* (braces and per-cent signs: text that is hostile to message formatting)
+    [] type = "int" /\ class = "syntax"  -> {"1+", "(2", "2**", "1_", "0b2", "1+{", "1}", "'{'", "%d", "{0"}
     [] type = "int" /\ class = "name"    -> {"abc", "x+1", "__import__"}
     [] type = "int" /\ class = "wrongtype" -> {"@[LST]@", "@[PTH]@", "@[IND]@", "@[IND2]@"}   \* not made up of just strings
     [] type = "int" /\ class = "huge"    -> {"10**100000"}
     [] type = "int" /\ class = "hang"    -> IF IncludeHang THEN {"9**9**9"} ELSE {}
-    [] type = "regex" /\ class = "ok"    -> {"a", "'a.b'", "'[ab]+'", "'^(h)(e)'", "-ignore-case 'A'"}
-    [] type = "regex" /\ class = "bad"   -> {"'('", "'*'", "'[a'", "'a{2,1}'", "'(?P<a'", "'\\'", "'(?'", "')'"}
+    [] type = "regex" /\ class = "ok"    -> {"a", "'a.b'", "'[ab]+'", "'^(h)(e)'", "-ignore-case 'A'", "'a{'", "'%s{0}'"}
+    [] type = "regex" /\ class = "bad"   -> {"'('", "'*'", "'[a'", "'a{2,1}'", "'(?P<a'", "'\\'", "'(?'", "')'", "'({'", "'%(a'"}
     [] type = "regex" /\ class = "extreme" -> {"'a{4294967296}'", "'a{1,99999999999}'"}
-    [] type = "repl" /\ class = "ok"     -> {"x", "''", "'\\n'", "'\\\\'"}
+    [] type = "repl" /\ class = "ok"     -> {"x", "''", "'\\n'", "'\\\\'", "'{0}'", "'%s'"}
     [] type = "repl" /\ class = "badref" -> {"'\\6'", "'\\g<9>'", "'\\g<nosuch>'"}
     [] type = "repl" /\ class = "badesc" -> {"'\\g<'", "'\\g'"}
     [] type = "range" /\ class = "ok"    -> {"1", "1:2", ":-1", "2:", "-2:-1"}
-    [] type = "range" /\ class = "bad"   -> {"a", "1:b", "::", "1.5", "1//0:"}
+    [] type = "range" /\ class = "bad"   -> {"a", "1:b", "::", "1.5", "1//0:", "{", "1:{}", "%d"}
     [] type = "matcher" /\ class = "ok"  -> {"is-empty", "( ! is-empty )", "TM"}
     [] type = "matcher" /\ class = "wrongtype" -> {"STR", "LST", "PTH", "TT"}   \* symbols of another type
     [] type = "transformer" /\ class = "ok" -> {"identity", "TT", "strip"}
